@@ -375,6 +375,15 @@ pub(crate) fn parse_f64(v: &str) -> Option<f64> {
         ".inf" | ".Inf" | ".INF" | "+.inf" | "+.Inf" | "+.INF" => Some(f64::INFINITY),
         "-.inf" | "-.Inf" | "-.INF" => Some(f64::NEG_INFINITY),
         ".nan" | ".NaN" | ".NAN" => Some(f64::NAN),
-        _ => v.parse::<f64>().ok(),
+        // `f64::from_str` also reads `inf`, `infinity` and `nan` (in any letter case, with an
+        // optional sign), none of which is a float of the core schema: only hand it texts made of
+        // the characters of a decimal number.
+        _ if v
+            .bytes()
+            .all(|b| matches!(b, b'0'..=b'9' | b'+' | b'-' | b'.' | b'e' | b'E')) =>
+        {
+            v.parse::<f64>().ok()
+        }
+        _ => None,
     }
 }
